@@ -202,6 +202,10 @@ def check_instance(inst, exp, *, tol=1e-9):
     cmp_rv("identity.marginalise", idc.marginalise(x), _emb_vec(inst, "mx"), E["P"])
     cmp_rv("merge(c, identity).marginalise", c1.merge(idc).marginalise(x), E["marg_mean"], E["marg_cov"])
 
+    # a datum equal to the mean has whitened residual exactly zero (no nugget may enter the RMS)
+    if bool(E["invertible"]):
+        cmp("residual_whitened_rms(data = mean)", np.asarray(y.residual_whitened_rms_flat(y.mean_flat)).reshape(-1), np.zeros(d if kind == "bd" else 1))
+
     # reversal: joint law of (x, y)
     solvers = [("lstsq", linalg.lstsq_svd)]
     if bool(E["invertible"]):
@@ -237,6 +241,51 @@ def check_instance(inst, exp, *, tol=1e-9):
                 cmp(f"residual_whitened_rms[{sname}]", rms, want_rms)
                 cmp(f"residual_whitened_rms_tree[{sname}]", obs.residual_whitened_rms_tree(data_tree), want_rms)
             cmp_rv(f"bayes_rule_and_rms_tree[{sname}].updated", upd2, E["post_mean"], E["post_cov"])
+    return bad
+
+
+def gauge(inst, alpha):
+    """(tl, b, LQ, to) -> (alpha tl, alpha b, alpha LQ, to / alpha): same effective conditional (LawGauge of GaussExact.tla),
+    but every latent quantity of the reversal is scaled by alpha"""
+    out = dict(inst)
+    a = F(alpha)
+    blocks = []
+    for b in inst["blocks"]:
+        nb = dict(b)
+        nb["tl"] = [F(v) * a for v in b["tl"]]
+        nb["b"] = [F(v) * a for v in b["b"]]
+        nb["LQ"] = [[F(v) * a for v in row] for row in b["LQ"]]
+        nb["to"] = [F(v) / a for v in b["to"]]
+        blocks.append(nb)
+    out["blocks"] = blocks
+    return out
+
+
+def check_gauged(inst, exp, alpha, *, tol=1e-9):
+    """the gauge-transformed instance must give the same marginal / joint / posterior as TLC computed for the original"""
+    E = {k: to_float(v) for k, v in exp["dense"].items()}
+    g = gauge(inst, alpha)
+    o = build(g)
+    c1, x, fmt = o["c1"], o["x"], o["fmt"]
+    m = inst["m"]
+    bad = []
+
+    def cmp_rv(name, rv, mean, cov):
+        gm, gc = mvn(rv)
+        if not close(gm, mean, tol):
+            bad.append((name + ".mean", f"relerr={maxerr(gm, mean):.3e}"))
+        if not close(gc, cov, tol):
+            bad.append((name + ".cov", f"relerr={maxerr(gc, cov):.3e}"))
+
+    tag = f"gauge[2^{int(round(float(np.log2(float(alpha)))))}]"
+    cmp_rv(f"{tag}.marginalise", c1.marginalise(x), E["marg_mean"], E["marg_cov"])
+    if bool(E["invertible"]):
+        for sname, solve in (("lstsq", linalg.lstsq_svd), ("solve_triu", linalg.solve_triu)):
+            obs, bw = c1.revert(x, solve_triu=solve)
+            cmp_rv(f"{tag}.revert[{sname}].observed", obs, E["marg_mean"], E["marg_cov"])
+            cmp_rv(f"{tag}.revert[{sname}].backward.marginalise(observed)", bw.marginalise(obs), _emb_vec(inst, "mx"), E["P"])
+            data = fmt(_emb_vec(inst, "data"), m)
+            cmp_rv(f"{tag}.revert[{sname}].backward.apply_flat(data)", bw.apply_flat(data), E["post_mean"], E["post_cov"])
     return bad
 
 
